@@ -154,7 +154,7 @@ def mkproc_scope(tier):
 PROPS = {
     "C01": {"streams": [sim_stream("full", ["C01"], {"selfdep": 0.4})]},
     "C02": {"streams": [sim_stream("full", ["C02"], {"selfdep": 0.4, "plen": 10})]},
-    "C03": {"streams": [sim_stream("full", ["C03"])]},
+    "C03": {"streams": [sim_stream("full", ["C03"], {"nmax": 8})]},
     "C04": {"streams": [sim_stream("occ", ["C04"], {"wmax": 4})]},
     "C05": {"streams": [sim_stream("occ", ["C05"], {"mem_p": 0.6})]},
     "C06": {"streams": [sim_stream("occ", ["C06"], {"wmax": 4})]},
